@@ -596,3 +596,15 @@ _addtie("C07", ["TieCache"], TIE_CACHE)
 _addtie("C06", ["TieCache"], [_T + n for n in ("tie_ca_Execute_unknown", "tie_ca_Execute_known", "tie_ca_Execute_total",
                                                  "tie_ca_Get_fresh_cache", "tie_ca_PortalGet_fresh_cache")])
 _addtie("C04", ["TieDataWriter", "TieCache"], [_T + "tie_cache_locks_released", _T + "tie_cache_no_panic", _T + "dw_tie_Row_counter"])
+
+# ---- session 5 (continued): the start-up parsing of handshake.go (readVersion, readClientParameters) translated on every run
+# (-startup -> TransStartup.lean over RtStartup.lean) and tied to the model's readClientParams / version constants
+TIE_STARTUP = [_T + n for n in (
+    "su_tie_VersionCancel", "su_tie_VersionSSLRequest", "su_mapSet_store", "su_mapGet_lookup", "su_scan_model", "su_scan_le",
+    "su_tie_loop", "su_tie_readClientParameters", "su_tie_readClientParameters_model", "su_tie_readClientParameters_anyfuel",
+    "su_readClientParameters_returns", "su_readClientParameters_error", "su_tie_readVersion", "su_tie_readVersion_value",
+    "su_tie_readVersion_exceeded", "su_tie_readVersion_short")]
+_addtie("C12", ["TieStartup"], TIE_STARTUP)
+_addtie("C11", ["TieStartup"], [_T + "su_tie_readVersion_value", _T + "su_tie_VersionSSLRequest", _T + "su_tie_VersionCancel"])
+_addtie("C04", ["TieStartup"], [_T + n for n in ("su_readClientParameters_returns", "su_tie_readVersion",
+                                                   "su_tie_readVersion_exceeded", "su_tie_readVersion_short")])
